@@ -119,7 +119,7 @@ Enc255(v, policy) ==
 (* Within a family the lowest index bits are the signs: bit 0 set = x      *)
 (* (or the only coordinate) positive, bit 1 set = y positive.              *)
 Sgn(bit) == IF bit = 1 THEN 1 ELSE -1
-Triplet(i) ==
+TripletRule(i) ==
   IF i < 10 THEN
     [nb |-> 1, xb |-> 0, yb |-> 8, dx |-> 0, dy |-> 256 * (i \div 2), xs |-> 1, ys |-> Sgn(i % 2)]
   ELSE IF i < 20 THEN
@@ -133,6 +133,10 @@ Triplet(i) ==
   ELSE LET k == (i - 120) % 4  w == IF i < 124 THEN 12 ELSE 16 IN
     [nb |-> IF i < 124 THEN 3 ELSE 4, xb |-> w, yb |-> w, dx |-> 0, dy |-> 0,
      xs |-> Sgn(k % 2), ys |-> Sgn((k \div 2) % 2)]
+
+\* the table proper, computed once from the rule
+TripletTable == [i \in 0 .. 127 |-> TripletRule(i)]
+Triplet(i) == TripletTable[i]
 
 \* the x bits are the top bits of the data bytes, the y bits follow
 TripletXY(t, b) ==
